@@ -361,6 +361,63 @@ impl<'a> Namer<'a> {
     }
 }
 
+/// an arbitrary terminal screen: cells [kind, face, char] with kind 0 Blank, 1 Ch, 2 WL, 3 WR, 4 Orphan
+type Screen = Vec<Vec<(u8, u8, u32)>>;
+
+fn screen_json(g: &Screen) -> Value {
+    Value::Array(g.iter().map(|r| Value::Array(r.iter().map(|c| json!([c.0, c.1, c.2])).collect())).collect())
+}
+fn screen_parse(v: &Value) -> Screen {
+    v.as_array()
+        .map(|rows| {
+            rows.iter()
+                .map(|row| {
+                    row.as_array()
+                        .map(|cs| {
+                            cs.iter()
+                                .map(|c| {
+                                    (c[0].as_u64().unwrap_or(0) as u8, c[1].as_u64().unwrap_or(0) as u8, c[2].as_u64().unwrap_or(0x20) as u32)
+                                })
+                                .collect()
+                        })
+                        .unwrap_or_default()
+                })
+                .collect()
+        })
+        .unwrap_or_default()
+}
+fn screen_coq(g: &Screen) -> String {
+    clist(g.iter().map(|row| {
+        clist(row.iter().map(|c| match c.0 {
+            0 => format!("sb {}", c.1),
+            1 => format!("sc {} {}", c.2, c.1),
+            2 => format!("sl {} {}", c.2, c.1),
+            3 => format!("sr {}", c.1),
+            _ => format!("so {}", c.1),
+        }))
+    }))
+}
+fn gen_screen(rng: &mut Rng, p: &Pools, h: usize, w: usize) -> Screen {
+    // anything at all: also unpaired halves of wide characters and orphaned cells
+    (0..h)
+        .map(|_| {
+            (0..w)
+                .map(|_| {
+                    let f = rng.below(p.faces.len() as u64) as u8;
+                    match rng.below(8) {
+                        0 | 1 => (0, f, 0x20),
+                        2 | 3 => (1, f, *rng.pick(&NARROW[1..])),
+                        4 => (2, f, *rng.pick(&WIDE)),
+                        5 => (3, f, 0x20),
+                        6 => (4, f, 0x20),
+                        _ => (1, f, 0x7A),
+                    }
+                })
+                .collect()
+        })
+        .collect()
+}
+
 #[derive(Clone, Debug)]
 enum Op {
     Draw(Surf),
@@ -368,6 +425,8 @@ enum Op {
     Skip,
     Clear,
     Renew,
+    /// the terminal is resized and shows the given screen; run_render then does clear() and new(_, true)
+    Resize(usize, usize, Screen),
 }
 
 fn ops_parse(v: &Value) -> Vec<Op> {
@@ -379,6 +438,11 @@ fn ops_parse(v: &Value) -> Vec<Op> {
                     "skip" => Op::Skip,
                     "clear" => Op::Clear,
                     "renew" => Op::Renew,
+                    "resize" => Op::Resize(
+                        o["h"].as_u64().unwrap_or(1) as usize,
+                        o["w"].as_u64().unwrap_or(1) as usize,
+                        screen_parse(&o["screen"]),
+                    ),
                     _ => Op::Frame,
                 })
                 .collect()
@@ -395,19 +459,21 @@ fn ops_json(ops: &[Op]) -> Value {
                 Op::Skip => json!({"op": "skip"}),
                 Op::Clear => json!({"op": "clear"}),
                 Op::Renew => json!({"op": "renew"}),
+                Op::Resize(h, w, g) => json!({"op": "resize", "h": h, "w": w, "screen": screen_json(g)}),
             })
             .collect(),
     )
 }
 
 /// drive the real renderer; one command list per operation (None = panic)
-fn drive(p: &Pools, h: usize, w: usize, ops: &[Op]) -> Option<Vec<Vec<(String, Value)>>> {
+fn drive(p: &Pools, h: usize, w: usize, clear: bool, ops: &[Op]) -> Option<Vec<Vec<(String, Value)>>> {
     let ops = ops.to_vec();
     let p2: &Pools = p;
     let res = std::panic::catch_unwind(std::panic::AssertUnwindSafe(move || {
+        let (mut h, mut w) = (h, w);
         let mut namer = Namer::new(p2);
         let mut term = RecTerm::new(h, w);
-        let mut rend = TerminalRenderer::new(&mut term, false).expect("new");
+        let mut rend = TerminalRenderer::new(&mut term, clear).expect("new");
         let mut drawn = blank_surf(h, w);
         let mut out = vec![];
         for op in &ops {
@@ -437,6 +503,14 @@ fn drive(p: &Pools, h: usize, w: usize, ops: &[Op]) -> Option<Vec<Vec<(String, V
                     rend.clear(&mut term).expect("clear");
                     rend = TerminalRenderer::new(&mut term, true).expect("new");
                 }
+                Op::Resize(h2, w2, _) => {
+                    // Terminal::run_render on TerminalEvent::Resize
+                    term.size = RecTerm::new(*h2, *w2).size;
+                    rend.clear(&mut term).expect("clear");
+                    rend = TerminalRenderer::new(&mut term, true).expect("new");
+                    h = *h2;
+                    w = *w2;
+                }
             }
             let cmds: Vec<(String, Value)> = term.cmds.iter().map(|c| namer.cmd(c, &drawn)).collect();
             if !matches!(op, Op::Draw(_) | Op::Clear) {
@@ -462,7 +536,16 @@ fn run(p: &Pools, input: &Value) -> Case {
     let mut dom = true;
     let mut kinds = (false, false, false);
     let (mut has_wide, mut has_img, mut has_glyph, mut has_shadow_edit) = (false, false, false, false);
+    let (h0, w0) = (h, w);
+    let (mut h, mut w) = (h, w);
     for op in &ops {
+        if let Op::Resize(h2, w2, g) = op {
+            h = *h2;
+            w = *w2;
+            if g.len() != h || g.iter().any(|r| r.len() != w) {
+                dom = false;
+            }
+        }
         if let Op::Draw(s) = op {
             for row in s {
                 for c in row {
@@ -495,6 +578,7 @@ fn run(p: &Pools, input: &Value) -> Case {
             }
         }
     }
+    let (h, w) = (h0, w0);
     let kinds = (dom && kinds.0, dom && kinds.1, dom && kinds.2);
     let overlap = kinds.0 || kinds.1 || kinds.2;
     let widths = clist(chars.iter().map(|c| format!("({}, {})", c, env.width(*c))));
@@ -510,7 +594,10 @@ fn run(p: &Pools, input: &Value) -> Case {
     let fer = clist((0..p.faces.len()).map(|i| format!("({}, {})", i, idx(look_of_erased(p.faces[i])))));
     let ers = clist((0..p.faces.len()).filter(|i| !shows_on_blank(p.faces[*i])).map(|i| i.to_string()));
 
-    let observed = drive(p, h, w, &ops);
+    if input["kind"].as_str() == Some("forced") {
+        return run_forced(p, input, &ops, dom && !overlap, &widths, &clist(isizes), &fsp, &fer, &ers);
+    }
+    let observed = drive(p, h, w, false, &ops);
     let (impl_coq, impl_json, ncmds, has_ech) = match &observed {
         None => ("[[COther]]".to_string(), json!("panic"), 0usize, false),
         Some(per_op) => (
@@ -526,6 +613,7 @@ fn run(p: &Pools, input: &Value) -> Case {
         Op::Skip => "SkipFrame".to_string(),
         Op::Clear => "Clear".to_string(),
         Op::Renew => "Renew".to_string(),
+        Op::Resize(h2, w2, g) => format!("rsz {} {} {}", h2, w2, screen_coq(g)),
     }));
     let nframes = ops.iter().filter(|o| matches!(o, Op::Frame)).count();
     let mut j = json!({"h": h, "w": w, "ops": ops_json(&ops)});
@@ -553,6 +641,8 @@ fn run(p: &Pools, input: &Value) -> Case {
         ("erase-chars", has_ech),
         ("clear", ops.iter().any(|o| matches!(o, Op::Clear))),
         ("renew", ops.iter().any(|o| matches!(o, Op::Renew))),
+        ("resize", ops.iter().any(|o| matches!(o, Op::Resize(..)))),
+        ("draw-clear-frame", ops.windows(3).any(|x| matches!(x, [Op::Draw(_), Op::Clear, Op::Frame]))),
         ("skip", ops.iter().any(|o| matches!(o, Op::Skip))),
         ("panic", observed.is_none()),
     ] {
@@ -569,6 +659,43 @@ fn run(p: &Pools, input: &Value) -> Case {
         json: j,
         tags,
         nontrivial: nframes >= 2 && ncmds > 0,
+    }
+}
+
+/// C01_forced on the code: a fresh renderer with clear = true, on a terminal that shows an arbitrary
+/// screen with placements the renderer does not know of; ops = [Draw s; Frame]
+#[allow(clippy::too_many_arguments)]
+fn run_forced(
+    p: &Pools, input: &Value, ops: &[Op], good: bool, widths: &str, isizes: &str, fsp: &str, fer: &str, ers: &str,
+) -> Case {
+    let h = input["h"].as_u64().unwrap_or(1) as usize;
+    let w = input["w"].as_u64().unwrap_or(1) as usize;
+    let screen = screen_parse(&input["screen"]);
+    let foreign: Vec<(u64, u64, u64)> = input["foreign"]
+        .as_array()
+        .map(|a| a.iter().map(|x| (x[0].as_u64().unwrap_or(0), x[1].as_u64().unwrap_or(0), x[2].as_u64().unwrap_or(0))).collect())
+        .unwrap_or_default();
+    let surf = ops.iter().find_map(|o| if let Op::Draw(s) = o { Some(s.clone()) } else { None }).unwrap_or_else(|| blank_surf(h, w));
+    let observed = drive(p, h, w, true, &[Op::Draw(surf.clone()), Op::Frame]);
+    let (impl_coq, impl_json) = match &observed {
+        None => ("[COther]".to_string(), json!("panic")),
+        Some(per_op) => (
+            clist(per_op[1].iter().map(|(s, _)| s.clone())),
+            Value::Array(per_op[1].iter().map(|(_, j)| j.clone()).collect()),
+        ),
+    };
+    let mut j = input.clone();
+    j["impl"] = impl_json;
+    Case {
+        coq: format!(
+            "Forced {} {} {} {} {} {} {} {} {} {} {} {}",
+            h, w, widths, isizes, fsp, fer, ers, screen_coq(&screen),
+            clist(foreign.iter().map(|(i, r, c)| format!("({}, {}, {})", i, r, c))),
+            surf_coq(&surf), impl_coq, cbool(good)
+        ),
+        json: j,
+        tags: vec!["kind=forced".to_string(), format!("domain={}", if good { "in" } else { "out" })],
+        nontrivial: observed.map(|o| !o[1].is_empty()).unwrap_or(false),
     }
 }
 
@@ -739,6 +866,7 @@ fn gen_history(rng: &mut Rng, p: &Pools) -> Value {
     };
     let ood = rng.chance(1, 16);
     let mut g = Gen { p, env: Env::new(p, h, w), h, w, mode, ood };
+    let (h0, w0) = (h, w);
     let n = 1 + rng.below(12) as usize;
     let mut ops: Vec<Op> = vec![];
     let mut prev = blank_surf(h, w);
@@ -752,6 +880,14 @@ fn gen_history(rng: &mut Rng, p: &Pools) -> Value {
                 ops.push(Op::Skip);
             }
             3 => ops.push(Op::Frame), // a frame with nothing drawn
+            6 if rng.chance(1, 2) => {
+                // the terminal is resized and shows whatever it likes
+                let h2 = 1 + rng.below(5) as usize;
+                let w2 = 1 + rng.below(9) as usize;
+                ops.push(Op::Resize(h2, w2, gen_screen(rng, p, h2, w2)));
+                g = Gen { p, env: Env::new(p, h2, w2), h: h2, w: w2, mode, ood };
+                prev = blank_surf(h2, w2);
+            }
             4 => {
                 // the frame-dropping path of run_render: the handler has drawn, then clear(), then frame()
                 let s = g.next_surface(rng, &prev);
@@ -781,7 +917,24 @@ fn gen_history(rng: &mut Rng, p: &Pools) -> Value {
             }
         }
     }
-    json!({"h": h, "w": w, "ops": ops_json(&ops)})
+    json!({"h": h0, "w": w0, "ops": ops_json(&ops)})
+}
+
+fn gen_forced(rng: &mut Rng, p: &Pools) -> Value {
+    let h = 1 + rng.below(5) as usize;
+    let w = 1 + rng.below(10) as usize;
+    let mut g = Gen { p, env: Env::new(p, h, w), h, w, mode: 0, ood: false };
+    let s1 = g.next_surface(rng, &blank_surf(h, w));
+    let s = g.next_surface(rng, &s1);
+    let nf = rng.below(3);
+    let foreign: Vec<Value> = (0..nf)
+        .map(|_| {
+            let i = if rng.chance(1, 2) { rng.below(NIMAGES) } else { 777 };
+            json!([i, rng.below(h as u64), rng.below(w as u64)])
+        })
+        .collect();
+    json!({"kind": "forced", "h": h, "w": w, "screen": screen_json(&gen_screen(rng, p, h, w)), "foreign": foreign,
+           "ops": ops_json(&[Op::Draw(s), Op::Frame])})
 }
 
 pub fn generate(rng: &mut Rng, n: usize, _tier: &str) -> Vec<Value> {
@@ -789,23 +942,40 @@ pub fn generate(rng: &mut Rng, n: usize, _tier: &str) -> Vec<Value> {
     // the shared generator's streams for neighbouring seeds are shifts of one another; re-seed
     // from its (well mixed) first output so that different VERIF_SEEDs give unrelated histories
     let mut rng = Rng(rng.next());
-    (0..n).map(|_| gen_history(&mut rng, &p)).collect()
+    (0..n).map(|_| if rng.chance(1, 12) { gen_forced(&mut rng, &p) } else { gen_history(&mut rng, &p) }).collect()
 }
 
 /// the operations before the first Draw of a surface with overlapping objects
 fn overlap_free_prefix(p: &Pools, input: &Value) -> Option<Value> {
-    let h = input["h"].as_u64().unwrap_or(1) as usize;
-    let w = input["w"].as_u64().unwrap_or(1) as usize;
+    if input["kind"].as_str() == Some("forced") {
+        return None;
+    }
+    let h0 = input["h"].as_u64().unwrap_or(1) as usize;
+    let w0 = input["w"].as_u64().unwrap_or(1) as usize;
+    let (mut h, mut w) = (h0, w0);
     let ops = ops_parse(&input["ops"]);
     let mut env = Env::new(p, h, w);
-    let cut = ops.iter().position(|o| match o {
-        Op::Draw(s) => s.len() == h && s.iter().all(|r| r.len() == w) && !overlap_free(&mut env, p, s, h, w),
-        _ => false,
-    })?;
+    let mut cut = None;
+    for (i, o) in ops.iter().enumerate() {
+        match o {
+            Op::Resize(h2, w2, _) => {
+                h = *h2;
+                w = *w2;
+            }
+            Op::Draw(s) => {
+                if s.len() == h && s.iter().all(|r| r.len() == w) && !overlap_free(&mut env, p, s, h, w) {
+                    cut = Some(i);
+                    break;
+                }
+            }
+            _ => {}
+        }
+    }
+    let cut = cut?;
     if cut == 0 {
         return None;
     }
-    Some(json!({"h": h, "w": w, "ops": ops_json(&ops[..cut])}))
+    Some(json!({"h": h0, "w": w0, "ops": ops_json(&ops[..cut])}))
 }
 
 pub fn batch(inputs: &[Value]) -> Batch {
